@@ -351,5 +351,7 @@ def run(chk, mod_gen):
     scale_selection(chk, mod, lib)
     from . import C13d
     C13d.run(chk, mod, lib)
+    from . import C13e
+    C13e.run(chk, mod, lib)
     from . import C13c
     C13c.run(chk, mod_gen)
